@@ -25,6 +25,10 @@ ROWS = [
      "lro requires output google.longrunning.Operation; void requires google.protobuf.Empty"),
     ("K-paged-void", M + r"\.paged_result_field$", True, r"{m}.void", False,
      "a paged response has fields; Empty has none"),
+    ("K-paged-unary-c", M + r"\.paged_result_field$", True, r"{m}.client_streaming", False,
+     "ASSUMPTION (domain): AIP-158 pagination is defined for unary methods; a streaming RPC shaped like a List method is out of scope"),
+    ("K-paged-unary-s", M + r"\.paged_result_field$", True, r"{m}.server_streaming", False,
+     "ASSUMPTION (domain): AIP-158 pagination is defined for unary methods"),
     ("K-paged-pagers", M + r"\.paged_result_field$", True, r"{s}.has_pagers", True,
      "Service.has_pagers = any(m.paged_result_field ...)"),
     ("K-sstream", M + r"\.server_streaming$", True, r"{s}.any_server_streaming", True,
